@@ -303,20 +303,26 @@ pub fn module_graph_1_to_2(module_info: &mut serde_json::Value) {
   ) -> Option<SpecifierWithRange> {
     fn comment_position_to_position_range(
       mut comment_start: Position,
+      comment_text: &str,
       range: std::ops::Range<usize>,
+      is_quoteless: bool,
     ) -> PositionRange {
       // the comment text starts after the double slash or slash star, so add 2
       comment_start.character += 2;
+      // -1 and +1 to include the quotes, but not for a pragma without quotes
+      let padding = if is_quoteless { 0 } else { 1 };
+      // the match is a byte range, positions count characters
+      let start = comment_text[..range.start].chars().count();
+      let end = comment_text[..range.end].chars().count();
       PositionRange {
         // This will always be on the same line.
-        // Does -1 and +1 to include the quotes
         start: Position {
           line: comment_start.line,
-          character: comment_start.character + range.start - 1,
+          character: comment_start.character + start - padding,
         },
         end: Position {
           line: comment_start.line,
-          character: comment_start.character + range.end + 1,
+          character: comment_start.character + end + padding,
         },
       }
     }
@@ -327,7 +333,9 @@ pub fn module_graph_1_to_2(module_info: &mut serde_json::Value) {
       text: deno_types.text.to_string(),
       range: comment_position_to_position_range(
         comment.range.start,
+        &comment.text,
         deno_types.range,
+        deno_types.is_quoteless,
       ),
     })
   }
